@@ -25,6 +25,12 @@ def pf(f):
     return getattr(f, "py_func", f)
 
 
+def _cell(K):
+    """The (row, col) cell a test key stands for: keys are 64-bit (low part k < 2**32, high part hi)."""
+    k, hi = K & 0xFFFFFFFF, K >> 32
+    return k // 7, k % 7 + 7 * hi
+
+
 def run_sequence(N, limit, keys, check_wf=True):
     """Append the events one by one to a fresh accumulator of N slots with COO_QUICKSORT_LIMIT=limit.
     Returns None or a failure description.  Checks the coo_append contract at every step and conservation at the end."""
@@ -36,9 +42,12 @@ def run_sequence(N, limit, keys, check_wf=True):
         for step, k in enumerate(keys):
             val = 1.0 + (step % 3)
             try:
-                coo = pf(CU.coo_append)(coo, (k // 7, k % 7, np.float32(val), k))
+                coo = pf(CU.coo_append)(coo, (_cell(k)[0], _cell(k)[1], np.float32(val), k))
             except IndexError as ex:
                 return "IndexError at append #%d: %s" % (step, str(ex)[:80])
+            except OverflowError as ex:
+                # (interpreted numpy refuses what compiled code wraps silently: a 64-bit key does not fit where it is being stored)
+                return "OverflowError at append #%d (key %d): %s" % (step, k, str(ex)[:80])
             ref[k] = ref.get(k, 0.0) + val
             if check_wf:
                 if not _WF.check_requires(dict(coo=coo)):
@@ -49,14 +58,14 @@ def run_sequence(N, limit, keys, check_wf=True):
         try:
             pf(CU.coo_sum_duplicates)(coo)
             pf(CU.merge_all_sum_duplicates)(coo)
-        except IndexError as ex:
-            return "IndexError in the final merge: %s" % str(ex)[:80]
+        except (IndexError, OverflowError) as ex:
+            return "%s in the final merge: %s" % (type(ex).__name__, str(ex)[:80])
         got = {}
         n = int(coo.ind[0])
         for i in range(n):
             kk = int(coo.key[i])
             got[kk] = got.get(kk, 0.0) + float(coo.val[i])
-            if (int(coo.row[i]), int(coo.col[i])) != (kk // 7, kk % 7):
+            if (int(coo.row[i]), int(coo.col[i])) != _cell(kk):
                 return "entry %d has key %d but (row, col) = (%d, %d)" % (i, kk, coo.row[i], coo.col[i])
         if set(got) != set(ref) or any(abs(got[k] - ref[k]) > 1e-4 * max(1, ref[k]) for k in ref):
             lost = {k: (ref.get(k), got.get(k)) for k in set(ref) | set(got) if abs(got.get(k, 0) - ref.get(k, 0)) > 1e-4}
@@ -101,6 +110,10 @@ def run(tier, seed):
                     keys = [0] * min(N + 3, cap)  # all keys equal to the stale sentinel value
                 if rep == 1:
                     keys = list(range(min(3 * N, cap)))  # all distinct: forces growth
+                if rep >= 3 and rep % 2 == 1:
+                    # 64-bit keys (key = col + array_mul * row exceeds 2**31 for vocabularies of ~46k tokens): pairs of keys that agree
+                    # modulo 2**32 must stay distinct cells through every sort / merge / growth
+                    keys = [k + (rng.choice([0, 1, 1 << 8]) << 32) + rng.choice([0, 1 << 31]) for k in keys]
                 msg = run_sequence(N, limit, keys)
                 R.case(("acc", N, limit, tuple(keys)), nontrivial=length >= N - 1, sample=dict(N=N, limit=limit, keys=keys[:12]) if rep == 2 and N == 5 else None)
                 if msg:
